@@ -196,11 +196,11 @@ def gen_cases(ctx):
     cases += [gen_smap_free(rng) for _ in range(6 * k)]
     cases += [gen_jobs_free(rng) for _ in range(5 * k)]
     # quick jobs, free-running, many calls: does run_jobs always return?
-    cases.append({"kind": "jobs_race", "cores": 3, "jobs": 3, "repeat": 30, "limit": 2})
+    cases.append({"kind": "jobs_race", "cores": 3, "jobs": 3, "repeat": 150})
     if thorough:
-        cases.append({"kind": "jobs_race", "cores": 2, "jobs": 1, "repeat": 60, "limit": 2})
-        cases.append({"kind": "jobs_race", "cores": 4, "jobs": 6, "repeat": 60, "limit": 2})
-        cases.append({"kind": "jobs_race", "cores": 3, "jobs": 3, "repeat": 60, "limit": 2})
+        cases.append({"kind": "jobs_race", "cores": 2, "jobs": 1, "repeat": 300})
+        cases.append({"kind": "jobs_race", "cores": 4, "jobs": 6, "repeat": 300})
+        cases.append({"kind": "jobs_race", "cores": 3, "jobs": 3, "repeat": 300})
     return cases
 
 
@@ -499,7 +499,7 @@ def run(ctx):
             ctx.oracle["failures"] += 1
             # a free-running run_jobs call that never returns is the start-up race of Process.run (known finding);
             # the label describes the case (kind), it is only attached to this failure mode
-            cls = [RACE_CLASS] if c["kind"] == "jobs_free" and r["exc"] == "Timeout" else []
+            cls = [RACE_CLASS] if c["kind"] == "jobs_free" and r["exc"] == "RaceHang" else []
             ctx.failure("oracle", "implementation did not complete: %s: %s" % (r["exc"], r.get("msg")), c, classes=cls, impl=r)
             fails[i] = True
             continue
